@@ -44,6 +44,187 @@ pub enum Case {
     Writer {
         ops: Vec<WOp>,
     },
+    /// a SliceReader over a slice of 2^32 + `extra` octets (zero except for
+    /// the position-dependent marker octets); requests around the 32-bit mark
+    Huge { extra: u32, ops: Vec<HOp> },
+}
+
+#[derive(Clone, Debug, PartialEq, Eq, Serialize, Deserialize)]
+pub enum HOp {
+    Skip(u64),
+    Sub(u64),
+    Bytes(u64),
+    U8,
+    U32,
+    Len,
+}
+
+/// Marker octets of the huge slice: offset -> value.
+fn huge_markers(total: usize) -> Vec<(usize, u8)> {
+    let two32 = 1usize << 32;
+    let mut v = Vec::new();
+    for (k, base) in [0usize, 1 << 16, 1 << 31, two32 - 8, two32, two32 + 8, total - 8].into_iter().enumerate() {
+        for j in 0..8 {
+            if base + j < total {
+                v.push((base + j, (0x10 * (k as u8 + 1)) | j as u8));
+            }
+        }
+    }
+    v
+}
+
+fn run_huge(extra: u32, ops: &[HOp], obs: &mut Obs) -> Result<(), Failure> {
+    let total = (1usize << 32) + extra as usize;
+    let layout = match std::alloc::Layout::array::<u8>(total) {
+        Ok(l) => l,
+        Err(_) => return Ok(()),
+    };
+    // zero pages are mapped lazily: only the few pages touched become resident
+    let p = unsafe { std::alloc::alloc_zeroed(layout) };
+    if p.is_null() {
+        obs.count("skipped:huge-allocation-unavailable");
+        return Ok(());
+    }
+    struct Free(*mut u8, std::alloc::Layout);
+    impl Drop for Free {
+        fn drop(&mut self) {
+            unsafe { std::alloc::dealloc(self.0, self.1) }
+        }
+    }
+    let _free = Free(p, layout);
+    let markers = huge_markers(total);
+    for &(o, b) in &markers {
+        unsafe { *p.add(o) = b };
+    }
+    let data: &[u8] = unsafe { std::slice::from_raw_parts(p, total) };
+    let at = |i: usize| -> u8 { markers.iter().find(|m| m.0 == i).map_or(0, |m| m.1) };
+    obs.count("probe:slice-longer-than-2^32");
+    let mut r = SliceReader::from(data);
+    let mut pos = 0usize;
+    for (i, op) in ops.iter().enumerate() {
+        obs.steps += 1;
+        let rem = total - pos;
+        let what = format!("op #{i} {op:?} at position {pos} of {total}");
+        match op {
+            HOp::Len => {
+                let l = guard(|| r.len()).map_err(|c| fail("huge-slice", "len", format!("{what}: {}", c.text())))?;
+                if l != rem {
+                    return Err(fail("huge-slice", "len", format!("{what}: len() = {l}, {rem} octets remain")));
+                }
+            }
+            HOp::Skip(n) => {
+                let n = *n as usize;
+                if n > rem {
+                    continue;
+                }
+                guard(|| r.skip_bytes(n)).map_err(|c| fail("huge-slice", "skip", format!("{what}: {}", c.text())))?;
+                pos += n;
+                let l = r.len();
+                if l != total - pos {
+                    return Err(fail("huge-slice", "skip", format!("{what}: {} octets remain afterwards, expected {}", l, total - pos)));
+                }
+            }
+            HOp::Sub(n) => {
+                let n = *n as usize;
+                if n > rem {
+                    continue;
+                }
+                let mut sub = guard(|| r.subreader(n)).map_err(|c| fail("huge-slice", "subreader", format!("{what}: {}", c.text())))?;
+                if sub.len() != n || r.len() != rem - n {
+                    return Err(fail(
+                        "huge-slice",
+                        "subreader",
+                        format!("{what}: the subreader holds {} octets (expected {n}), the parent {} (expected {})", sub.len(), r.len(), rem - n),
+                    ));
+                }
+                if n > 0 {
+                    let b = unsafe { sub.read_u8_unchecked() };
+                    if b != at(pos) {
+                        return Err(fail("huge-slice", "subreader", format!("{what}: first octet of the subreader is {b:#04x}, the slice has {:#04x} there", at(pos))));
+                    }
+                }
+                pos += n;
+            }
+            HOp::Bytes(n) => {
+                let n = *n as usize;
+                let got = guard(|| r.bytes(n).map(|b| (b.len(), b.first().copied(), b.last().copied())))
+                    .map_err(|c| fail("huge-slice", "bytes", format!("{what}: {}", c.text())))?;
+                if n > rem {
+                    if got.is_some() || r.len() != rem {
+                        return Err(fail("huge-slice", "bytes", format!("{what}: more than remains, yet {:?} / {} remain", got, r.len())));
+                    }
+                    continue;
+                }
+                let want = (n, if n > 0 { Some(at(pos)) } else { None }, if n > 0 { Some(at(pos + n - 1)) } else { None });
+                if got != Some(want) {
+                    return Err(fail("huge-slice", "bytes", format!("{what}: got (len, first, last) = {:?}, expected {:?}", got, want)));
+                }
+                pos += n;
+                if r.len() != total - pos {
+                    return Err(fail("huge-slice", "bytes", format!("{what}: {} octets remain afterwards, expected {}", r.len(), total - pos)));
+                }
+            }
+            HOp::U8 => {
+                if rem < 1 {
+                    continue;
+                }
+                let b = unsafe { r.read_u8_unchecked() };
+                if b != at(pos) {
+                    return Err(fail("huge-slice", "fixed-read", format!("{what}: read {b:#04x}, the slice has {:#04x}", at(pos))));
+                }
+                pos += 1;
+            }
+            HOp::U32 => {
+                if rem < 4 {
+                    continue;
+                }
+                let v = unsafe { r.read_u32_be_unchecked() };
+                let want = u32::from_be_bytes([at(pos), at(pos + 1), at(pos + 2), at(pos + 3)]);
+                if v != want {
+                    return Err(fail("huge-slice", "fixed-read", format!("{what}: read {v:#010x}, the slice has {want:#010x}")));
+                }
+                pos += 4;
+            }
+        }
+    }
+    Ok(())
+}
+
+fn gen_huge(rng: &mut Rng) -> Case {
+    let extra = *rng.pick(&[64u32, 4096, 65_600, 1 << 20]);
+    let total = (1u64 << 32) + extra as u64;
+    let two32 = 1u64 << 32;
+    let mut ops = Vec::new();
+    let mut pos = 0u64;
+    for _ in 0..rng.urange(2, 6) {
+        let rem = total - pos;
+        let big = |rng: &mut Rng| -> u64 {
+            match rng.below(5) {
+                0 => two32,
+                1 => two32 + rng.range(1, extra as u64),
+                2 => two32 - rng.range(1, 16),
+                3 => rng.range(0, 16),
+                _ => rem.saturating_sub(rng.range(0, 16)),
+            }
+        };
+        let op = match rng.below(7) {
+            0 | 1 => HOp::Skip(big(rng).min(rem)),
+            2 | 3 => HOp::Sub(big(rng).min(rem)),
+            4 => HOp::Bytes(if rng.chance(1, 4) { rem + rng.range(1, 9) } else { big(rng).min(rem) }),
+            5 => if rng.bool() { HOp::U8 } else { HOp::U32 },
+            _ => HOp::Len,
+        };
+        match &op {
+            HOp::Skip(n) | HOp::Sub(n) => pos += *n,
+            HOp::Bytes(n) if *n <= rem => pos += *n,
+            HOp::U8 if rem >= 1 => pos += 1,
+            HOp::U32 if rem >= 4 => pos += 4,
+            _ => {}
+        }
+        ops.push(op);
+    }
+    ops.push(HOp::Len);
+    Case::Huge { extra, ops }
 }
 
 fn fail(oracle: &str, class: &str, detail: String) -> Failure {
@@ -424,9 +605,15 @@ impl Scenario for C18 {
             }
             ctx.check::<C18>(&case);
         }
+        // a slice longer than 2^32 octets (one run in eight)
+        if ctx.run % 8 == 0 {
+            let case = gen_huge(rng);
+            ctx.check::<C18>(&case);
+        }
     }
     fn execute(case: &Case, obs: &mut Obs) -> Result<(), Failure> {
         match case {
+            Case::Huge { extra, ops } => run_huge(*extra, ops, obs),
             Case::Reader { data, ops } => {
                 let mut r = SliceReader::from(&data[..]);
                 obs.reader_calls += ops.len() as u64;
@@ -438,6 +625,13 @@ impl Scenario for C18 {
     fn shrink(case: &Case) -> Vec<Case> {
         let mut out = Vec::new();
         match case {
+            Case::Huge { extra, ops } => {
+                for i in (0..ops.len()).rev() {
+                    let mut o = ops.clone();
+                    o.remove(i);
+                    out.push(Case::Huge { extra: *extra, ops: o });
+                }
+            }
             Case::Reader { data, ops } => {
                 for i in (0..ops.len()).rev() {
                     let mut o = ops.clone();
